@@ -19,6 +19,7 @@ type c14Step struct {
 	Alt  bool     `json:"alt,omitempty"` // the secondary files named in Args hold their partner's content (same path, other content)
 	Ext  string   `json:"ext,omitempty"` // with Out: extension of the -o file (gts derives the output format from .fasta/.gb/.genbank)
 	Sin  int      `json:"sin,omitempty"` // standard input of the cached run: 0 a pipe, 1 a regular file, 2 a regular file positioned behind a line the caller consumed
+	Old  bool     `json:"old,omitempty"` // with Out: the -o file exists before the cached run (and is longer than the output)
 	Aux  bool     `json:"aux,omitempty"` // another invocation sharing the cache directory (gts cache list / purge): run, not compared
 }
 
@@ -27,7 +28,7 @@ type c14Case struct {
 }
 
 func (s c14Step) key() string {
-	return fmt.Sprintf("%q|%s|%v|%s|%v", s.Args, s.In, s.Out, s.Ext, s.Alt)
+	return fmt.Sprintf("%q|%s|%v|%s|%v|%v", s.Args, s.In, s.Out, s.Ext, s.Alt, s.Out && s.Old)
 }
 
 var (
@@ -48,7 +49,7 @@ func uncached(s c14Step) cliResult {
 	args := expandArgs(s.Args)
 	args = append([]string{args[0], "--no-cache"}, args[1:]...)
 	setSecondary(s.Args, s.Alt)
-	r = env.run(args, pool[s.In], s.Out, s.Ext)
+	r = env.withStale(s.Old).run(args, pool[s.In], s.Out, s.Ext)
 	baselineMu.Lock()
 	baseline[s.key()] = r
 	baselineMu.Unlock()
@@ -69,10 +70,19 @@ func c14Check(c c14Case) *Violation {
 		}
 		want := uncached(s)
 		setSecondary(s.Args, s.Alt)
-		got := env.withStdin(s.Sin).run(expandArgs(s.Args), pool[s.In], s.Out, s.Ext)
+		got := env.withStdin(s.Sin).withStale(s.Old).run(expandArgs(s.Args), pool[s.In], s.Out, s.Ext)
 		hist := []string{}
 		for _, p := range c.Steps[:i+1] {
 			hist = append(hist, fmt.Sprintf("[gts %q < %s out=%v%s alt=%v stdin=%s]", p.Args, p.In, p.Out, p.Ext, p.Alt, []string{"pipe", "file", "file-at-offset"}[mod(p.Sin, 3)]))
+		}
+		if s.Out && s.Old && want.Exit == 0 {
+			// what the file held before is no part of the output of a run that succeeds
+			fresh := s
+			fresh.Old = false
+			if w2 := uncached(fresh); w2.Exit == 0 && !bytes.Equal(w2.Out, want.Out) {
+				d := firstDiff(string(want.Out), string(w2.Out))
+				return viol("output-file", "[gts %q < %s -o file%s]: written over an existing longer file the output has %d bytes, written to a new file %d bytes (first difference at byte %d: %q)", s.Args, s.In, s.Ext, len(want.Out), len(w2.Out), d, clipStr(string(want.Out[minInt(d, len(want.Out)):]), 80))
+			}
 		}
 		if got.Exit != want.Exit {
 			return viol("exit-status", "after %s: cached run exits %d, --no-cache exits %d (stderr %q vs %q)", strings.Join(hist, " ; "), got.Exit, want.Exit, clipStr(got.Stderr, 200), clipStr(want.Stderr, 200))
@@ -97,6 +107,9 @@ func c14Classify(c c14Case) (bool, []string) {
 		labels = append(labels, "cmd:"+s.Args[0])
 		if s.Out {
 			labels = append(labels, "-o"+s.Ext)
+		}
+		if s.Out && s.Old {
+			labels = append(labels, "-o-over-existing-file")
 		}
 		if s.Alt {
 			labels = append(labels, "secondary-file-rewritten")
@@ -197,6 +210,7 @@ func c14Gen(t *rapid.T) c14Case {
 		st.Alt = rapid.IntRange(0, 3).Draw(t, "alt") == 0
 		st.Sin = rapid.SampledFrom([]int{0, 0, 0, 1, 2}).Draw(t, "sin")
 		if st.Out {
+			st.Old = rapid.Bool().Draw(t, "old")
 			st.Ext = rapid.SampledFrom([]string{"", "", ".fasta", ".gb", ".genbank", ".txt"}).Draw(t, "ext")
 		}
 		c.Steps = append(c.Steps, st)
@@ -229,6 +243,9 @@ func TestC14(t *testing.T) {
 		}
 		for _, a := range vars {
 			sa := func(in string, out bool) c14Step { return c14Step{Args: append([]string{cmd}, a...), In: in, Out: out} }
+			sold := func(in string) c14Step {
+				return c14Step{Args: append([]string{cmd}, a...), In: in, Out: true, Old: true}
+			}
 			ssin := func(in string, sin int) c14Step {
 				return c14Step{Args: append([]string{cmd}, a...), In: in, Sin: sin}
 			}
@@ -249,6 +266,7 @@ func TestC14(t *testing.T) {
 				{Steps: []c14Step{sa("small", false), se("small", ".fasta"), sa("small", false), se("small", ".gb")}},
 				{Steps: []c14Step{se("smallfa", ".gb"), sa("smallfa", false), se("smallfa", ".fasta"), se("smallfa", ".genbank")}},
 				{Steps: []c14Step{ssin("small", 2), sa("small", false), ssin("two", 1), ssin("small", 1)}},
+				{Steps: []c14Step{sold("small"), sold("small"), sa("small", false), sold("small")}},
 				{Steps: []c14Step{sa("two", false), ssin("two", 2), ssin("big", 2), sa("big", false)}},
 			} {
 				if !e.try(c) {
